@@ -1,0 +1,122 @@
+//go:build verif
+
+// Contracts for the deductive verifier in /verif (comment-only; compiled only with -tags verif).
+package keeper
+
+//@ family tokens     key types.KeySymbol value v1.Token
+//@ family byMinUnit  key types.KeyMinUint value str
+//@ family byOwner    key types.KeyTokens value str
+//@ family byContract key types.KeyContract value str
+//@ family burned     key types.KeyBurnTokenAmt value sdk.Coin
+//@ family prm        key global:types.PrefixParamsKey value v1.Params
+
+//@ define MOD = macc("token")
+//@ define capOf(t) = t.MaxSupply * pow10(t.Scale)
+// record well-formedness: stored under its own symbol, indexed by its min unit, scale within range
+//@ define tokWF(sym) = has(tokens, sym) ==> get(tokens, sym).Symbol == sym && get(tokens, sym).Scale <= 18
+//@      && has(byMinUnit, get(tokens, sym).MinUnit) && get(byMinUnit, get(tokens, sym).MinUnit) == sym
+//@ define minUnitWF(m) = has(byMinUnit, m) ==> has(tokens, get(byMinUnit, m)) && get(tokens, get(byMinUnit, m)).MinUnit == m
+//@      && get(tokens, get(byMinUnit, m)).Scale <= 18 && get(tokens, get(byMinUnit, m)).Symbol == get(byMinUnit, m)
+
+// ---------------------------------------------------------------------------------------------
+// Identity (C09): a symbol / min unit is taken at most once
+
+//@ func Keeper.AddToken
+//@   property C09
+//@   returns err
+//@   modifies tokens, byMinUnit, byOwner, byContract
+//@   ensures fresh:  err == nil ==> !old(has(tokens, token.Symbol)) && !old(has(byMinUnit, token.MinUnit))
+//@   ensures stored: err == nil ==> tokens == set(old(tokens), token.Symbol, token) && byMinUnit == set(old(byMinUnit), token.MinUnit, token.Symbol)
+//@   ensures taken_rejected: old(has(tokens, token.Symbol)) || old(has(byMinUnit, token.MinUnit)) ==> err != nil
+//@ end
+
+//@ func Keeper.IssueToken
+//@   property C09
+//@   returns err
+//@   requires scale <= 18 && (maxSupply == 0 || initialSupply <= maxSupply)
+//@   requires initialSupply <= 100000000000 && maxSupply <= 1000000000000
+//@   requires !has(byMinUnit, minUnit) ==> supply(minUnit) == 0
+//@   modifies tokens, byMinUnit, byOwner, byContract, bal, supply
+//@   ensures fresh:  err == nil ==> !old(has(tokens, symbol)) && !old(has(byMinUnit, minUnit))
+//@   ensures stored: err == nil ==> has(tokens, symbol) && get(tokens, symbol).Symbol == symbol && get(tokens, symbol).MinUnit == minUnit
+//@                               && get(tokens, symbol).Scale == scale && get(tokens, symbol).Owner == bech(owner)
+//@                               && get(byMinUnit, minUnit) == symbol && has(byMinUnit, minUnit)
+//@   ensures minted: err == nil ==> supply == addcoin(old(supply), minUnit, initialSupply * pow10(scale))
+//@                               && bal == credit(debit(credit(old(bal), MOD, minUnit, initialSupply * pow10(scale)), MOD, minUnit, initialSupply * pow10(scale)), owner, minUnit, initialSupply * pow10(scale))
+//@   ensures cap:    err == nil ==> supply(minUnit) <= capOf(get(tokens, symbol))
+//@ end
+
+// ---------------------------------------------------------------------------------------------
+// Governance (C09): only the owner edits, mints, hands over; the cap is never below what circulates
+
+//@ func Keeper.EditToken
+//@   property C09
+//@   returns err
+//@   requires tokWF(symbol)
+//@   let t0 = get(tokens, symbol)
+//@   modifies tokens
+//@   ensures owner_only: err == nil ==> old(has(tokens, symbol)) && bech(owner) == t0.Owner
+//@   ensures cap_covers_supply: err == nil && maxSupply > 0 ==> maxSupply * pow10(t0.Scale) >= supply(t0.MinUnit)
+//@   ensures identity: err == nil ==> get(tokens, symbol).Symbol == t0.Symbol && get(tokens, symbol).MinUnit == t0.MinUnit
+//@                               && get(tokens, symbol).Scale == t0.Scale && get(tokens, symbol).Owner == t0.Owner
+//@                               && get(tokens, symbol).InitialSupply == t0.InitialSupply && get(tokens, symbol).Contract == t0.Contract
+//@                               && (maxSupply == 0 ==> get(tokens, symbol).MaxSupply == t0.MaxSupply)
+//@                               && (maxSupply > 0 ==> get(tokens, symbol).MaxSupply == maxSupply)
+//@   ensures only_this: err == nil ==> tokens == set(old(tokens), symbol, get(tokens, symbol))
+//@ end
+
+//@ func Keeper.MintToken
+//@   property C09
+//@   returns err
+//@   requires minUnitWF(coinMinted.Denom)
+//@   requires coinMinted.Amount >= 0
+//@   let sym = get(byMinUnit, coinMinted.Denom)
+//@   let t0 = get(tokens, sym)
+//@   requires has(byMinUnit, coinMinted.Denom) ==> supply(coinMinted.Denom) <= capOf(t0)
+//@   modifies bal, supply
+//@   ensures owner_only: err == nil ==> has(byMinUnit, coinMinted.Denom) && bech(owner) == t0.Owner
+//@   ensures mintable:   err == nil ==> t0.Mintable
+//@   ensures cap:        err == nil ==> supply(coinMinted.Denom) <= capOf(t0)
+//@   ensures minted:     err == nil ==> supply == addcoin(old(supply), coinMinted.Denom, coinMinted.Amount)
+//@          && bal == credit(debit(credit(old(bal), MOD, coinMinted.Denom, coinMinted.Amount), MOD, coinMinted.Denom, coinMinted.Amount),
+//@                           ite(isempty(recipient), owner, recipient), coinMinted.Denom, coinMinted.Amount)
+//@ end
+
+//@ func Keeper.BurnToken
+//@   property C09
+//@   returns err
+//@   requires coinBurnt.Amount >= 0
+//@   requires has(burned, coinBurnt.Denom) ==> get(burned, coinBurnt.Denom).Denom == coinBurnt.Denom
+//@   let tally0 = ite(has(burned, coinBurnt.Denom), get(burned, coinBurnt.Denom).Amount, 0)
+//@   modifies bal, supply, burned
+//@   ensures known_token: err == nil ==> has(byMinUnit, coinBurnt.Denom)
+//@   ensures burnt:  err == nil ==> supply == addcoin(old(supply), coinBurnt.Denom, 0 - coinBurnt.Amount)
+//@          && bal == debit(credit(debit(old(bal), owner, coinBurnt.Denom, coinBurnt.Amount), MOD, coinBurnt.Denom, coinBurnt.Amount), MOD, coinBurnt.Denom, coinBurnt.Amount)
+//@   ensures tally:  err == nil ==> burned == set(old(burned), coinBurnt.Denom, coin(coinBurnt.Denom, tally0 + coinBurnt.Amount))
+//@ end
+
+//@ func Keeper.TransferTokenOwner
+//@   property C09
+//@   returns err
+//@   requires tokWF(symbol)
+//@   let t0 = get(tokens, symbol)
+//@   modifies tokens, byOwner
+//@   ensures owner_only: err == nil ==> old(has(tokens, symbol)) && bech(srcOwner) == t0.Owner
+//@   ensures handed:     err == nil ==> tokens == set(old(tokens), symbol, with(t0, "Owner", bech(dstOwner)))
+//@ end
+
+// Issue / mint fee (C09, C16): tax to the fee collector, the rest burned, nothing left in the module account.
+//@ define feeTax(f, rate) = (f * raw(rate)) div DEC_ONE
+//@ func feeHandler
+//@   property C09, C16
+//@   returns err
+//@   requires has(prm) && !isnil(get(prm).TokenTaxRate) && raw(get(prm).TokenTaxRate) >= 0 && raw(get(prm).TokenTaxRate) <= DEC_ONE
+//@   requires fee.Amount >= 0 && ufb("denom_valid", fee.Denom)
+//@   let tax = feeTax(fee.Amount, get(prm).TokenTaxRate)
+//@   modifies bal, supply
+//@   ensures split:  err == nil ==> bal == debit(credit(debit(credit(debit(old(bal), feeAcc, fee.Denom, fee.Amount), MOD, fee.Denom, fee.Amount),
+//@                                  MOD, fee.Denom, tax), macc(k.feeCollectorName), fee.Denom, tax), MOD, fee.Denom, fee.Amount - tax)
+//@   ensures burned: err == nil ==> supply == addcoin(old(supply), fee.Denom, 0 - (fee.Amount - tax))
+//@   ensures module_nets_to_zero: err == nil && feeAcc != MOD && macc(k.feeCollectorName) != MOD ==> bal(MOD, fee.Denom) == old(bal(MOD, fee.Denom))
+//@   nopanic C16
+//@ end
